@@ -1,4 +1,5 @@
 //! gridx — exhaustive enumeration of finite input / shape / fault grids on the real crate.
+mod c03z;
 mod c05;
 mod c06;
 mod c07;
@@ -66,6 +67,7 @@ fn run_part(part: &str, tier: &str, only: Option<&str>) -> Vec<grid::Grid> {
     let tier = tier.to_string();
     let parts: Vec<grid::Grid> = match part {
         "c05" => c05::run(&tier, only),
+        "c03z" => c03z::run(&tier),
         "c06" => c06::run(&tier),
         "c07" => c07::run(&tier),
         "c15" => c15::run(&tier),
